@@ -104,9 +104,12 @@ def restructure(rng, res):
     """move things around in a model that has been saved, without touching a value: rotate a many-valued containment, move a
     child to another container that can hold it, rotate the roots.  -> what was done (for the replay), [] if nothing could be"""
     def subtree(o):
+        # (eContents walks a set of references: children are taken feature by feature, by name, for a reproducible order)
         out = [o]
-        for c in o.eContents:
-            out += subtree(c)
+        for f in sorted((f for f in o.eClass.eAllReferences() if f.containment), key=lambda f: f.name):
+            v = o.eGet(f)
+            for c in (list(v) if f.many else ([v] if v is not None else [])):
+                out += subtree(c)
         return out
     done = []
     for _ in range(rng.randint(1, 3)):
